@@ -644,7 +644,7 @@ func genCases(r *fw.Run, prop string) []*genCase {
 	} else {
 		for _, c := range c07Sentinels() {
 			switch c.What {
-			case "field named error in an error", "fields differing only in the case of the first letter":
+			case "field named error in an error", "fields differing only in the case of the first letter", "interface doc comment that reads like a build constraint":
 			default:
 				cases = append(cases, c)
 			}
@@ -849,7 +849,7 @@ func init() {
 	})
 	fw.Register(&fw.Engine{
 		ID: "C08", Level: "translation_validation",
-		Rule: "programs = the C07 description set (minus the two cases known not to compile); per package harness-written glue (its own printer of the untagged Go types an API user writes) implements the generated interface, overriding a seed-chosen subset of methods with forwarders into a reflective handler, and registers the generated client stubs and error types. The batch binary starts a real Service per package with VarlinkNew(impl), connects a real Connection through a recording proxy and, for every overridden method, runs 8 (thorough 24) value sets cycling through the scenarios Call, error reply, more-sequence (1..4 replies), oneway (+ barrier), upgrade (+ raw bytes), more-sequence ending in an error reply, upgrade answered with an error reply. Values are generated per declared type (int64 extremes, floats, unicode strings incl. NUL, empty and nested arrays/maps/structs, absent and present optionals, arbitrary JSON for object, each enum name). Oracle: request frame method = <interface>.<Method>, flags exactly as requested, parameters match the input values per the varlink JSON mapping with exactly the declared field names; the implementation receives equal Go values and sees the same flags; reply / error frames match the values given to the generated Reply helpers (error member = <interface>.<Error>); the client returns equal values, Continues on all but the last reply, or the generated typed error with equal fields; non-overridden methods => MethodNotImplemented; unknown method => MethodNotFound; absent and array-typed parameters => InvalidParameter without invoking the implementation; bytes written on the object returned by Upgrade reach Call.Conn. Every declared error is used in turn, on Call, Send(more) and Upgrade; packages with more than two errors get extra error rounds.",
+		Rule: "programs = the C07 description set (minus the cases that are known findings of C07 and do not compile); per package harness-written glue (its own printer of the untagged Go types an API user writes) implements the generated interface, overriding a seed-chosen subset of methods with forwarders into a reflective handler, and registers the generated client stubs and error types. The batch binary starts a real Service per package with VarlinkNew(impl), connects a real Connection through a recording proxy and, for every overridden method, runs 8 (thorough 24) value sets cycling through the scenarios Call, error reply, more-sequence (1..4 replies), oneway (+ barrier), upgrade (+ raw bytes), more-sequence ending in an error reply, upgrade answered with an error reply. Values are generated per declared type (int64 extremes, floats, unicode strings incl. NUL, empty and nested arrays/maps/structs, absent and present optionals, arbitrary JSON for object, each enum name). Oracle: request frame method = <interface>.<Method>, flags exactly as requested, parameters match the input values per the varlink JSON mapping with exactly the declared field names; the implementation receives equal Go values and sees the same flags; reply / error frames match the values given to the generated Reply helpers (error member = <interface>.<Error>); the client returns equal values, Continues on all but the last reply, or the generated typed error with equal fields; non-overridden methods => MethodNotImplemented; unknown method => MethodNotFound; absent and array-typed parameters => InvalidParameter without invoking the implementation; bytes written on the object returned by Upgrade reach Call.Conn. Every declared error is used in turn, on Call, Send(more) and Upgrade; packages with more than two errors get extra error rounds.",
 		Assumptions: []string{"nil and empty containers are equal; JSON null is tolerated for an empty array/map on the wire", "floats are compared as float64 values, integers as decimal text"},
 		Run:         runC08, Replay: replayGen("C08"), CrashIsViolation: false, MinEvals: 20,
 		QuickTimeout: 20 * time.Minute, ThoroughTimeout: 90 * time.Minute,
